@@ -1,7 +1,7 @@
 """C14: basis files and state files (harness/h_state.cpp)"""
 import os, sys
 sys.path.insert(0, os.path.dirname(os.path.dirname(os.path.abspath(__file__))))
-from props import two_flavour, COMMON_ASSUME  # noqa: E402
+from props import two_flavour, memcheck_stage, COMMON_ASSUME  # noqa: E402
 
 HARNESSES = {
     'h_state': dict(src='h_state.cpp', insts=['inst_soplex']),
@@ -19,8 +19,8 @@ PROPS = {
         level_note='equal-bound variables may come back FIXED; the writer path "LP held outside the solver" is exercised only as far as '
                    'public histories reach it (hasBasis after a solve with simplifier keeps the LP loaded) and is reported, not claimed',
         technique='runtime monitoring: write/read round-trip oracle on real files over seeded bases and configurations, under ASan+UBSan',
-        stages=two_flavour('h_state', 600, 2400, 10000, 40000),
-        minima=lambda t: {'c14.basis_roundtrips.defaultnames.std': 100, 'c14.basis_roundtrips.usernames.cpx': 100, 'c14.source.setBasis': 100,
+        stages=lambda t: two_flavour('h_state', 600, 2400, 10000, 40000)(t) + [memcheck_stage('h_state', 48, 1200)(t)],
+        minima=lambda t: {'memcheck.cases_completed': 44, 'c14.basis_roundtrips.defaultnames.std': 100, 'c14.basis_roundtrips.usernames.cpx': 100, 'c14.source.setBasis': 100,
                           'c14.bases_with_nonbasic_at_upper': 100, 'c14.bases_with_free_nonbasic': 20, 'c14.state_roundtrips.usernames.std': 50,
                           'c14.state_resolves': 100},
         eval_counter='cases', distinct_set='nontrivial',
